@@ -1547,6 +1547,10 @@ func (c *Client) callResourceChangedHandler(ctx context.Context, req *ResourceLi
 	if cs, ok := req.GetSession().(*ClientSession); ok {
 		cs.resourcesCache.invalidate()
 		cs.resourceTemplatesCache.invalidate()
+		// A resource that was removed, or registered anew under its URI, is
+		// announced by this notification only: what was read from it before
+		// is no longer to be served from the cache.
+		cs.readResourceCache.invalidate()
 	}
 	if h := c.opts.ResourceListChangedHandler; h != nil {
 		h(ctx, req)
